@@ -98,6 +98,8 @@ def compute_and_add_axis_min_max(
         missing = prop["missing"]
         if missing is not None:
             values = values[np.logical_not(missing)]
+        # model_copy() above is shallow: copy the axis so the input metadata is not edited
+        axis = axis.model_copy()
         axis.min = np.min(values).item()
         axis.max = np.max(values).item()
         new_axes.append(axis)
